@@ -150,7 +150,7 @@ pub fn check(ctx: &Ctx) -> i32 {
         "GNU as (intel syntax) stands in for yasm after a syntax-only transliteration".into(),
         "reference semantics as pinned in DESIGN.md 3.1".into(),
     ];
-    let n = ctx.tier.pick(1500, 100000);
+    let n = ctx.tier.pick(3000, 100000);
     let run = |b: &[u8]| {
         let c = decode(ctx, b);
         run_case(ctx, &tc, &c.prog, &c.tuples)
